@@ -20,9 +20,11 @@ import (
 // The injected errors come in several identities: a reader or writer may fail with an
 // error that wraps io.EOF or io.ErrUnexpectedEOF (a truncated frame, a closed connection);
 // only the bare io.EOF value means "end of input".
-var errReaders = []error{errors.New("injected reader failure"), fmt.Errorf("injected reader failure: %w", io.EOF), fmt.Errorf("injected reader failure: %w", io.ErrUnexpectedEOF)}
-var errWriters = []error{errors.New("injected writer failure"), fmt.Errorf("injected writer failure: %w", io.EOF), fmt.Errorf("injected writer failure: %w", io.ErrShortWrite)}
-var errKindNames = []string{"plain", "wraps-EOF", "wraps-other-io-error"}
+// The sentinel errors of package io that the wrappers themselves produce and test for (a closed pipe) are identities of their own:
+// a source or destination may fail with exactly that value, or wrap it.
+var errReaders = []error{errors.New("injected reader failure"), fmt.Errorf("injected reader failure: %w", io.EOF), fmt.Errorf("injected reader failure: %w", io.ErrUnexpectedEOF), io.ErrClosedPipe, fmt.Errorf("relay: %w", io.ErrClosedPipe), io.ErrUnexpectedEOF, io.ErrNoProgress}
+var errWriters = []error{errors.New("injected writer failure"), fmt.Errorf("injected writer failure: %w", io.EOF), fmt.Errorf("injected writer failure: %w", io.ErrShortWrite), io.ErrClosedPipe, fmt.Errorf("relay: %w", io.ErrClosedPipe), io.ErrShortWrite, io.ErrShortBuffer}
+var errKindNames = []string{"plain", "wraps-EOF", "wraps-other-io-error", "io.ErrClosedPipe", "wraps-io.ErrClosedPipe", "bare-io-sentinel", "bare-io-sentinel-2"}
 
 // faultReader delivers data[:k] in reads of at most step bytes, then fails.
 type faultReader struct {
